@@ -21,6 +21,9 @@ def sum_except_batch(x, num_batch_dims=1):
     if not check.is_nonnegative_int(num_batch_dims):
         raise TypeError("Number of batch dimensions must be a non-negative integer.")
     reduce_dims = list(range(num_batch_dims, x.ndimension()))
+    if not reduce_dims:
+        # Nothing to sum. (torch.sum with an empty list of dims would sum over all dimensions.)
+        return x.clone()
     return torch.sum(x, dim=reduce_dims)
 
 
